@@ -72,9 +72,21 @@ static DIR_SEQ: AtomicU64 = AtomicU64::new(0);
 struct TempDir(std::path::PathBuf);
 impl TempDir {
     fn new() -> Result<TempDir, Fail> {
+        TempDir::named(false)
+    }
+    /// `odd`: a directory name that is not valid UTF-8 (any byte string is a legal name on Linux)
+    fn named(odd: bool) -> Result<TempDir, Fail> {
         // transient per-case directory, on tmpfs when available (450 000 small file operations per quick run)
         let base = if std::path::Path::new("/dev/shm").is_dir() { std::path::PathBuf::from("/dev/shm/pmh-verif-scratch") } else { verif_root().join("scratch") };
-        let d = base.join(format!("c20-{}-{}", std::process::id(), DIR_SEQ.fetch_add(1, Ordering::Relaxed)));
+        let name = format!("c20-{}-{}", std::process::id(), DIR_SEQ.fetch_add(1, Ordering::Relaxed));
+        let d = if odd {
+            use std::os::unix::ffi::OsStrExt;
+            let mut bytes = name.into_bytes();
+            bytes.extend_from_slice(b"-caf\xe9 \xff\xfe");
+            base.join(std::ffi::OsStr::from_bytes(&bytes))
+        } else {
+            base.join(name)
+        };
         std::fs::create_dir_all(&d).map_err(|e| Fail::new(format!("harness: cannot create {}: {}", d.display(), e)))?;
         Ok(TempDir(d))
     }
@@ -86,7 +98,9 @@ impl Drop for TempDir {
 }
 
 pub fn eval(c: &Case) -> Eval {
-    let dir = TempDir::new()?;
+    // one case in four works in a directory whose name is not valid UTF-8
+    let odd_dir = c.m % 4 == 1;
+    let dir = TempDir::named(odd_dir)?;
     let file = dir.0.join("parameters.json");
     let p = SetSketchParams::new(c.b.0, c.m, c.a.0, c.q);
     // missing file
@@ -187,6 +201,7 @@ pub fn eval(c: &Case) -> Eval {
         .class_if(sa && sb, "short-decimals-only")
         .class_if(!sa || !sb, "17-digit-float-present")
         .class_if(c.m > (1u64 << 53) || c.q > (1u64 << 53), "integer-above-2^53")
+        .class_if(odd_dir, "directory-name-not-utf8")
         .class(format!("file-bytes<={}", ((bytes.len() + 19) / 20) * 20)))
 }
 
@@ -258,7 +273,7 @@ fn missing_directory(ctx: &Ctx, c: &Case) {
 
 pub fn run(ctx: &Ctx) {
     ctx.set_rule("proptest generates (b, m, a, q): b in (1,2] and a in [1e-6, 1e9] from short decimals (<= 15 digits), typical parameter values, random bit patterns (17 digits), values 1 + k*eps; integers over all of u64 incl. 2^53 +- 1 and u64::MAX. \
-        Oracle: dump into a private directory then reload gives m and q exactly, a and b bit-exactly when their shortest decimal form has <= 15 significant digits and within 1 ulp otherwise; a second dump replaces the file, also when it differs from the previous one in a single parameter (b, m, a or q alone) or by one ulp; \
+        Oracle: dump into a private directory (one case in four: a directory whose name is not valid UTF-8) then reload gives m and q exactly, a and b bit-exactly when their shortest decimal form has <= 15 significant digits and within 1 ulp otherwise; a second dump replaces the file, also when it differs from the previous one in a single parameter (b, m, a or q alone) or by one ulp; \
         then EVERY strict prefix of the written file (0..len-1 bytes) is written back as the crash point and reload_json must return Err (not Ok, not a panic); a missing file must give Err; sub-check missing-directory: in a child process whose working directory holds a valid dump, reloading from directories that do not exist (relative, nested, absolute) and from an existing empty directory must give Err. \
         Non-trivial = at least one float needs 17 digits. Distinct = distinct parameter tuple. The crash-point enumeration per generated file is exhaustive.");
     ctx.assume("b is generated inside its documented interval (1,2] and a between 1e-6 and 1e9: for magnitudes like 1e-143 serde_json's default number parser is 1 ulp off even for 15-digit decimals, which is outside what the parameters can meaningfully be");
